@@ -18,10 +18,22 @@ import (
 )
 
 // Dirs. Nothing a registered command needs lives under /tmp.
-const (
-	VerifDir  = "/verif"
-	ReplayDir = "/verif/replays"
-	RunDir    = "/verif/.run"
+const VerifDir = "/verif"
+
+// scratchBase is /verif for every registered command. The tooling that runs the checks against deliberately
+// broken scratch copies of the repository in parallel (tools/seedmatrix.sh) sets VERIF_SCRATCH so that
+// those runs keep their run directories, replays and evidence apart from the real ones.
+var scratchBase = func() string {
+	if d := os.Getenv("VERIF_SCRATCH"); d != "" {
+		return d
+	}
+	return VerifDir
+}()
+
+// Run and replay directories.
+var (
+	ReplayDir = filepath.Join(scratchBase, "replays")
+	RunDir    = filepath.Join(scratchBase, ".run")
 )
 
 // EvidenceDir is /verif/evidence; VERIF_EVIDENCE_DIR redirects it (used when the checks are run against a
@@ -30,7 +42,7 @@ var EvidenceDir = func() string {
 	if d := os.Getenv("VERIF_EVIDENCE_DIR"); d != "" {
 		return d
 	}
-	return "/verif/evidence"
+	return filepath.Join(scratchBase, "evidence")
 }()
 
 // Tier is quick or thorough.
